@@ -13,6 +13,7 @@ import (
 	"sort"
 	"strconv"
 	"strings"
+	"sync"
 	"time"
 )
 
@@ -117,10 +118,13 @@ type Stats struct {
 	Nontrivial int            `json:"distinct_nontrivial"`
 	// Hashes of the distinct non-trivial cases (omitted when there are too many): check.py unions them across the
 	// generator shards so that a case produced by two shards is counted once.
-	Hashes     []uint64       `json:"nontrivial_hashes,omitempty"`
-	MaxCaseLen int            `json:"max_case_len"`
+	Hashes     []uint64 `json:"nontrivial_hashes,omitempty"`
+	MaxCaseLen int      `json:"max_case_len"`
 	caseTags   int
 	seen       map[uint64]bool
+	// a history that was given up as hung keeps running in its goroutine and may still call Note / record a panic
+	// while the main goroutine accounts for the skipped lines: the maps are guarded
+	mu sync.Mutex
 }
 
 func newStats() *Stats {
@@ -128,12 +132,14 @@ func newStats() *Stats {
 }
 
 // Note records that the current case reached the named branch.
-func (s *Stats) Note(tag string) { s.Branches[tag]++; s.caseTags++ }
+func (s *Stats) Note(tag string) { s.mu.Lock(); s.Branches[tag]++; s.caseTags++; s.mu.Unlock() }
 
 func (s *Stats) endCase(ops []string) {
 	if len(ops) == 0 {
 		return
 	}
+	s.mu.Lock()
+	defer s.mu.Unlock()
 	s.Cases++
 	if len(ops) > s.MaxCaseLen {
 		s.MaxCaseLen = len(ops)
@@ -163,7 +169,9 @@ func safeExec(r Runner, op []string, st *Stats) (obs string) {
 	defer func() {
 		if x := recover(); x != nil {
 			obs = "panic:" + panicClass(x)
+			st.mu.Lock()
 			st.Panics[obs]++
+			st.mu.Unlock()
 		}
 	}()
 	return r.Exec(op)
@@ -259,7 +267,9 @@ loop:
 		fmt.Fprintf(out, "%s\t%s\n", line, o)
 		st.Ops++
 		if f := strings.Fields(line); len(f) > 0 {
+			st.mu.Lock()
 			st.OpMix[f[0]]++
+			st.mu.Unlock()
 		}
 	}
 	st.endCase(ops)
